@@ -295,10 +295,15 @@ func (t *twin) exec(o op) {
 			t.c.Count("op:prune", 1)
 		}
 	case opOverwrite:
-		// the way a node uses it: on a freshly opened tree
-		t.reopenTree(false)
-		if t.failed() {
-			return
+		// the way a node uses it: on a freshly opened tree; the twins that never
+		// reopen roll the LIVE tree back (warm node cache, loaded versions)
+		if t.cfg.reopen != "never" {
+			t.reopenTree(false)
+			if t.failed() {
+				return
+			}
+		} else {
+			t.c.Count("op:overwrite-on-live-tree", 1)
 		}
 		t.guard("LoadVersionForOverwriting", func() {
 			if err := t.tree.LoadVersionForOverwriting(o.ver); err != nil {
@@ -308,6 +313,12 @@ func (t *twin) exec(o op) {
 		for v := range t.hashes {
 			if v > o.ver {
 				delete(t.hashes, v)
+			}
+		}
+		// handles to the dropped versions refer to deleted nodes; the version numbers are reused
+		for v := range t.handles {
+			if v > o.ver {
+				delete(t.handles, v)
 			}
 		}
 		t.c.Count("op:overwrite", 1)
